@@ -110,7 +110,7 @@ func parse(b []byte, depth int) (*Node, []byte, error) {
 		} else if len(n.Data) >= 2 {
 			// descend when the content is exactly one map/array/tag item and re-encodes to itself
 			if m := n.Data[0] >> 5; m == 4 || m == 5 || m == 6 {
-				if inner, r2, err := parse(n.Data, depth+1); err == nil && len(r2) == 0 {
+				if inner, r2, err := parse(n.Data, depth+1); err == nil && len(r2) == 0 && plausibleEmbedded(inner) {
 					if string(Encode(inner)) == string(n.Data) {
 						n.Embedded = true
 						n.Items = []*Node{inner}
@@ -151,6 +151,42 @@ func parse(b []byte, depth int) (*Node, []byte, error) {
 	}
 }
 
+// plausibleEmbedded keeps random byte strings (scalars, digests) that happen to parse as CBOR from being
+// mistaken for nested encodings: the library's nested blobs are structs, i.e. non-empty maps with text keys,
+// possibly under a tag or in an array.
+func plausibleEmbedded(n *Node) bool {
+	switch n.Kind {
+	case Map:
+		if len(n.Items) == 0 {
+			return false
+		}
+		for i := 0; i+1 < len(n.Items); i += 2 {
+			if n.Items[i].Kind != Text || len(n.Items[i].Data) == 0 {
+				return false
+			}
+			for _, c := range n.Items[i].Data {
+				if c < 0x20 || c > 0x7e {
+					return false
+				}
+			}
+		}
+		return true
+	case Tag:
+		return plausibleEmbedded(n.Items[0])
+	case Array:
+		if len(n.Items) == 0 {
+			return false
+		}
+		for _, it := range n.Items {
+			if !plausibleEmbedded(it) {
+				return false
+			}
+		}
+		return true
+	}
+	return false
+}
+
 func putHead(out []byte, major byte, arg uint64) []byte {
 	m := major << 5
 	switch {
@@ -159,11 +195,11 @@ func putHead(out []byte, major byte, arg uint64) []byte {
 	case arg <= 0xff:
 		return append(out, m|24, byte(arg))
 	case arg <= 0xffff:
-		return append(binary.BigEndian.AppendUint16(append(out, m|25), uint16(arg)))
+		return binary.BigEndian.AppendUint16(append(out, m|25), uint16(arg))
 	case arg <= 0xffffffff:
-		return append(binary.BigEndian.AppendUint32(append(out, m|26), uint32(arg)))
+		return binary.BigEndian.AppendUint32(append(out, m|26), uint32(arg))
 	default:
-		return append(binary.BigEndian.AppendUint64(append(out, m|27), arg))
+		return binary.BigEndian.AppendUint64(append(out, m|27), arg)
 	}
 }
 
